@@ -1,6 +1,7 @@
 package main
 
 import (
+	"sync"
 	"encoding/json"
 	"fmt"
 	"go/types"
@@ -345,6 +346,13 @@ func (s *Session) replayObligation(prop string, o *Obligation) (bool, map[string
 	var prev []map[string]string
 	var last map[string]interface{}
 	for attempt := 0; attempt < 3; attempt++ {
+		if replayBudgetExhausted() {
+			if last == nil {
+				last = map[string]interface{}{}
+			}
+			last["note"] = "replay budget of this run exhausted (150 s): no further inputs were tried"
+			return false, last
+		}
 		ok, det := s.replayOnce(prop, o, prev)
 		if det != nil {
 			det["models_tried"] = attempt + 1
@@ -362,10 +370,105 @@ func (s *Session) replayObligation(prop string, o *Obligation) (bool, map[string
 		}
 		prev = append(prev, mv)
 	}
+	// no model of the obligation could be confirmed: look for a failing input among models of the
+	// preconditions alone (cached per property, function and instantiation)
+	if (!isEffectKind(o.Kind) || hasProp(o.Props, "C18")) && !replayBudgetExhausted() {
+		if ok, det := s.searchFailingInput(prop, o); ok {
+			return true, det
+		} else if det != nil && last != nil {
+			last["precondition_model_search"] = det["summary"]
+		}
+	}
 	return false, last
 }
 
+// all replays of one check run share a wall-clock budget, so that a check on a badly broken tree
+// still terminates in minutes; what is not replayed is reported with no-failing-input-found
+var replayStart time.Time
+var replayStartOnce sync.Once
+
+func replayBudgetExhausted() bool {
+	replayStartOnce.Do(func() { replayStart = time.Now() })
+	return time.Since(replayStart) > 150*time.Second
+}
+
+func isEffectKind(k string) bool { return k == "writes" || k == "writes-nothing" || k == "reads" || k == "structure" }
+
+type preSearchResult struct {
+	ok  bool
+	det map[string]interface{}
+}
+
+var (
+	preSearchMu    sync.Mutex
+	preSearchCache = map[string]*preSearchResult{}
+	preSearchBusy  = map[string]chan struct{}{}
+)
+
+// searchFailingInput runs the real function on up to six inputs that satisfy the contract's
+// preconditions (solver models steered to different corners) and evaluates the property's contract
+// clauses on each run (runtime assertion checking). A violated clause is a failing input.
+func (s *Session) searchFailingInput(prop string, o *Obligation) (bool, map[string]interface{}) {
+	key := prop + "|" + o.Fn + "|" + o.InstName
+	preSearchMu.Lock()
+	if r, ok := preSearchCache[key]; ok {
+		preSearchMu.Unlock()
+		return r.ok, r.det
+	}
+	if ch, busy := preSearchBusy[key]; busy {
+		preSearchMu.Unlock()
+		<-ch
+		preSearchMu.Lock()
+		r := preSearchCache[key]
+		preSearchMu.Unlock()
+		if r == nil {
+			return false, nil
+		}
+		return r.ok, r.det
+	}
+	ch := make(chan struct{})
+	preSearchBusy[key] = ch
+	preSearchMu.Unlock()
+	res := &preSearchResult{}
+	func() {
+		defer func() { recover() }()
+		var prev []map[string]string
+		tried := 0
+		for attempt := 0; attempt < 6 && !replayBudgetExhausted(); attempt++ {
+			ok, det := s.replayOnceMode(prop, o, prev, true)
+			if det == nil {
+				break
+			}
+			tried++
+			if ok {
+				det["found_by"] = "precondition-model search (input " + fmt.Sprint(tried) + ")"
+				res.ok, res.det = true, det
+				return
+			}
+			mv, _ := det["model_values"].(map[string]string)
+			if mv == nil {
+				break
+			}
+			prev = append(prev, mv)
+		}
+		res.det = map[string]interface{}{"summary": fmt.Sprintf("%d precondition models run on the real code, no contract clause of %s violated", tried, prop)}
+	}()
+	preSearchMu.Lock()
+	preSearchCache[key] = res
+	delete(preSearchBusy, key)
+	preSearchMu.Unlock()
+	close(ch)
+	return res.ok, res.det
+}
+
 func (s *Session) replayOnce(prop string, o *Obligation, prev []map[string]string) (bool, map[string]interface{}) {
+	return s.replayOnceMode(prop, o, prev, false)
+}
+
+// replayOnceMode: with pre = true the candidate input is any model of the function's
+// (quantifier-free) preconditions instead of a model of the failed obligation; the run on the real
+// code is then judged by runtime assertion checking of the property's contract clauses only.
+func (s *Session) replayOnceMode(prop string, o *Obligation, prev []map[string]string, pre bool) (bool, map[string]interface{}) {
 	fi := s.prog.Funcs[o.Fn]
 	ct := s.cf.Funcs[o.Fn]
 	if fi == nil || ct == nil {
@@ -407,20 +510,29 @@ func (s *Session) replayOnce(prop string, o *Obligation, prev []map[string]strin
 		want = want[:i] + "/" + want[i+1+j+1:]
 	}
 	want = strings.TrimSuffix(want, "@C20")
+	if pre {
+		want = u.name() + "/cover:requires"
+	}
 	var od *Obligation
 	for _, x := range u.obls {
 		if x.Name == want {
 			od = x
 		}
 	}
-	if od == nil || od.Cover {
+	if od == nil || (od.Cover && !pre) {
 		return false, map[string]interface{}{"note": "obligation not found in the defined-theory rerun"}
 	}
 	baseAssume := append(append([]*Term{}, od.Axioms...), od.Assume...)
+	goal := od.Goal
+	if pre {
+		goal = False
+		o = &Obligation{Name: o.Name, Kind: "search", Props: o.Props, Fn: o.Fn, InstName: o.InstName}
+	}
 	// bound the storage so that the state can be built; small bounds first — with every shape
 	// integer confined to a few values the nonlinear frame arithmetic is decided by branching
 	qfOnly := false
-	var block []*Term // shapes already tried
+	var preSteer []*Term // pre mode: soft preferences for this attempt
+	var block []*Term    // shapes already tried
 	boundsFor := func(cells, objs int64) []*Term {
 		assume := append([]*Term{}, block...)
 		for _, a := range baseAssume {
@@ -484,6 +596,48 @@ func (s *Session) replayOnce(prop string, o *Obligation, prev []map[string]strin
 			}
 		}
 	}
+	if pre {
+		// steer successive candidates towards different corners (soft: dropped if unsatisfiable)
+		k := len(prev)
+		var steer []*Term
+		for _, w := range wants {
+			base := strings.TrimSuffix(w.key, ".len")
+			if base == w.key || w.t.Sort != SInt {
+				continue
+			}
+			var capT, chT, ptrT *Term
+			for _, w2 := range wants {
+				switch w2.key {
+				case base + ".cap":
+					capT = w2.t
+				case base + ".ch":
+					chT = w2.t
+				case base + ".ptr":
+					ptrT = w2.t
+				}
+			}
+			if capT == nil || chT == nil {
+				continue
+			}
+			switch k % 6 {
+			case 0:
+				steer = append(steer, Ge(w.t, IntLit(1)), Ge(chT, IntLit(2)))
+			case 1:
+				steer = append(steer, Lt(w.t, capT), Ge(w.t, IntLit(1)))
+			case 2:
+				steer = append(steer, Eq(w.t, capT), Ge(w.t, IntLit(2)))
+			case 3:
+				steer = append(steer, Ge(chT, IntLit(2)), Ne(mk("mod", SInt, w.t, chT), IntLit(0)))
+			case 4:
+				if ptrT != nil {
+					steer = append(steer, Gt(ptrT, IntLit(0)), Ge(w.t, IntLit(1)))
+				}
+			case 5:
+				steer = append(steer, Eq(w.t, IntLit(0)))
+			}
+		}
+		preSteer = steer
+	}
 	for _, pm := range prev {
 		var same []*Term
 		for _, w := range wants {
@@ -503,9 +657,20 @@ func (s *Session) replayOnce(prop string, o *Obligation, prev []map[string]strin
 	cellsUsed := int64(0)
 	// stage 4 and 5 drop the quantified assumptions (heap contents after append/make/copy): the
 	// shapes found may then be spurious, which the run on the real code decides
-	for _, b := range [][4]int64{{10, 3, 8, 0}, {20, 4, 12, 0}, {48, 6, 20, 0}, {10, 3, 8, 1}, {48, 6, 15, 1}} {
+	stages := [][4]int64{{10, 3, 8, 0}, {20, 4, 12, 0}, {48, 6, 20, 0}, {10, 3, 8, 1}, {48, 6, 15, 1}}
+	if pre {
+		stages = [][4]int64{{12, 3, 8, 2}, {12, 3, 8, 0}}
+	}
+	blockBase := block
+	for _, b := range stages {
 		qfOnly = b[3] == 1
-		script := Script(od.Ctx, "ALL", boundsFor(b[0], b[1]), od.Goal, true)
+		if pre {
+			block = blockBase
+			if b[3] == 2 {
+				block = append(append([]*Term{}, blockBase...), preSteer...)
+			}
+		}
+		script := Script(od.Ctx, "ALL", boundsFor(b[0], b[1]), goal, true)
 		vals, status = evalTerms(script, terms, int(b[2]))
 		cellsUsed = b[0]
 		if vals != nil {
@@ -686,6 +851,7 @@ func (s *Session) genReplayTest(u *Unit, o *Obligation, mv map[string]string) (s
 		ch, p, l, c     int64
 	}
 	var bufs []bufP
+	var innerRegions [][4]interface{} // (element type, start, capacity, parameter) of per-channel slices
 	var args []string
 	var pre strings.Builder
 	recvExpr := ""
@@ -752,6 +918,7 @@ func (s *Session) genReplayTest(u *Unit, o *Obligation, mv map[string]string) (s
 					if cp == 0 {
 						continue // nil inner slice
 					}
+					innerRegions = append(innerRegions, [4]interface{}{goTypeName(in.Elem()), p, cp, pn})
 					fmt.Fprintf(&pre, "\t%s[%d] = mem_%s[%d:%d:%d]\n", goName, c, tn, p, p+l, p+cp)
 				}
 			} else {
@@ -836,6 +1003,22 @@ func (s *Session) genReplayTest(u *Unit, o *Obligation, mv map[string]string) (s
 			recvExpr = goName
 		} else {
 			args = append(args, goName)
+		}
+	}
+	// per-channel slices must not overlap a buffer of the same element type nor each other (the
+	// quantified non-overlap preconditions of the striped functions; a model found with the
+	// quantified assumptions dropped may violate them)
+	for i, a := range innerRegions {
+		for _, b := range bufs {
+			if goTypeName(b.elem) == a[0].(string) && a[1].(int64) < b.p+b.c && b.p < a[1].(int64)+a[2].(int64) {
+				return "", "", fmt.Errorf("candidate input violates the non-overlap precondition (per-channel slice overlaps %s)", b.name)
+			}
+		}
+		for j := 0; j < i; j++ {
+			b := innerRegions[j]
+			if a[3].(string) == "dst" && b[3].(string) == "dst" && b[0].(string) == a[0].(string) && a[1].(int64) < b[1].(int64)+b[2].(int64) && b[1].(int64) < a[1].(int64)+a[2].(int64) {
+				return "", "", fmt.Errorf("candidate input violates the non-overlap precondition (per-channel slices overlap)")
+			}
 		}
 	}
 	if fi.Sig.Results().Len() > 0 {
